@@ -9,6 +9,8 @@ Gen.MacroTables
   whitespaceTokens  tokens.rs `Token::is_whitespace`
   compileDefines    compile.rs: the (name, value) pairs pushed before `args.defines`, per target, and the fact
                     that user defines are appended after them (order matters: first entry of a name wins)
+  initialDefinesUseDefinePath  preprocess.rs `preprocess_initial_file`: each API define is the located text
+                    "name value" sent through Macro::parse + retain + push (the 9f7cdb8 fix)
   argsShareDisabled preprocess.rs `apply_single_macro`: macro arguments are expanded by
                     `apply_macros_internal(.., macro_disabled, ..)` (the d00f5aa fix), not by `apply_macros`
 """
@@ -111,12 +113,17 @@ def register(gen, T):
         shares = bool(re.search(r'apply_macros_internal\( arg\.to_vec\(\), macro_defs, macro_disabled, false,', seg))
         out.append("/-- macro arguments are expanded with the *current* `macro_disabled` vector -/\n")
         out.append(f"def argsShareDisabled : Bool := {'true' if shares else 'false'}\n\n")
-        # initial defines are object-like macros pushed without a uniqueness check
+        # initial defines go through the `#define` path: each (name, value) becomes the located text "name value",
+        # is lexed without a trailing line end, parsed by Macro::parse, and replaces an earlier macro of that name
         pif = normws(fn_body(pre, "preprocess_initial_file"))
-        plain_push = bool(re.search(r'macros\.push\(Macro \{ name: name\.to_string\(\), is_function: false, num_params: 0, tokens, '
-                                    r'location: SourceLocation::UNKNOWN, \}\)', pif)) and "retain" not in pif
-        out.append("/-- API-level defines: pushed as object-like macros, unlocated, no `retain` first -/\n")
-        out.append(f"def initialDefinesPlainPush : Bool := {'true' if plain_push else 'false'}\n\n")
+        as_define = (bool(re.search(r'format!\("\{name\} \{value\}"\)', pif))
+                     and bool(re.search(r'TokenStream::new\(contents, location\) \.suppress_trailing_endline\(\) \.read_to_end\(\)', pif))
+                     and bool(re.search(r'let macro_def = Macro::parse\(&tokens\)\?; macros\.retain\(\|m\| m\.name != macro_def\.name\); '
+                                        r'macros\.push\(macro_def\);', pif))
+                     and "SourceLocation::UNKNOWN)" not in pif.split("for (name, value) in initial_defines")[1].split("Macro::parse")[0].replace(
+                         "InvalidDefine(SourceLocation::UNKNOWN)", ""))
+        out.append("/-- API-level defines: the located text `name value` goes through `Macro::parse`, `retain`, `push` -/\n")
+        out.append(f"def initialDefinesUseDefinePath : Bool := {'true' if as_define else 'false'}\n\n")
 
         # --- compile.rs initial defines ------------------------------------------------------------------
         cb = fn_body(comp, "compile")
